@@ -30,6 +30,15 @@ def reader_files(rng, quick):
         tr = {"id": 1, "kind": "aac", "ts": 48000, "sizes": [4, 5, 6], "chunks": [3], "deltas": [1024] * 3, "cts": None, "sync": None, "co64": False,
               "entry": isogen.mp4a(2, 3, 2, 128000, 48000, pad=j % 3, es_flags=fl), "dinf": url if j % 2 == 0 else None}
         files.append(("esflags_%02x" % fl, bytes(isogen.build_movie([tr], "moov_first")[0].data)))
+    # 64-bit size headers (size field 1 + largesize) on the media data box, on a trailing free box and on boxes at every level: the read of the
+    # largesize is a stream call like any other
+    import check_c12
+    trs = readcheck.small_tracks(rng, ntr=2, maxn=5)
+    r0, _, nodes = isogen.build_movie(trs, "moov_first", large_mdat=True)
+    nodes = nodes + [isogen.Box("free", [isogen.Raw(b"\0" * 3)], large=True)]
+    files.append(("hdr64_top", bytes(isogen.render(nodes).data)))
+    nodes2 = nodes[:1] + [check_c12.transform(nodes[1], rng, p_ins=0.0, p_perm=0.0, p_large=0.7, p_pad=0.0)] + nodes[2:]
+    files.append(("hdr64_nested", bytes(isogen.render(nodes2).data)))
     return files
 
 
